@@ -236,7 +236,7 @@ def rule_error_selection(ctx):
         ctx.report("errsel:fallthrough", ctx.where(f, re_fn.node), "the `_ => None` arm is no longer added exactly when fewer arms than variants exist", {})
     # struct path: members[source]; as_dyn_error on the selected expression only
     rs = A.get_fn(ctx.files, ERR, "render_some")
-    ts = T.templates_of(rs)
+    ts = T.templates_both(rs)
     ctx.instance("render_some")
     if len(ts) != 1 or not T.ir_text(ts[0].ir).replace(" ", "").endswith("Option::Some(#expr.as_dyn_error())"):
         ctx.report("errsel:render_some", ctx.where(f, rs.node), "`render_some` no longer yields `Some(<selected>.as_dyn_error())`", {})
